@@ -1,5 +1,6 @@
 import AiocoapModel.Basic.Bytes
 import AiocoapModel.Apps.FileServer
+import AiocoapModel.Apps.FileServerHistory
 /-! Line protocol for the file-server model.
 
 Strings are hex of their UTF-8 bytes (`-` = empty).  A component list is `~` (empty list) or
@@ -13,6 +14,13 @@ comma-separated strings; a path is `<anchor 0|1|2>:<parts, comma-separated, may 
      → `<code|crash> <block2 -|num:m:szx> <payload> nba=<0|1> |<op>*`
        ops: `S<path>` stat, `O<path>` open-read, `L<path>` listdir, `T<dir>` mkstemp,
        `R<src>><dst>` rename, `U<path>` unlink, `M<path>` mkdir, `D<path>` rmdir
+`C19 A <token>*`           → `ok write=<0|1> etag=<n> root=<path>` | `usage` | `out-of-model`
+       (the command line of aiocoap-fileserver after the program name, one hex string per token)
+`C19 H <write><etags> <root> <event>*` → the outputs of the events, joined by ` ;; `; events (one token each):
+       `R;<G|P|D|X>;<comps>;<inm><im><imEmpty>;<block2>;<stat>;<etagMatches><ifMatchHit><parentIsDir>;<tmpName>;<children>;<content>`
+            → as for `C19 R` (obsPending comes from the model's table; content `=`: as in the previous R event)
+       `O;<comps>`          → `obs` | `4.00`                  (add_observation)
+       `K;<gone: ~ | path|path…>` → `tick |<op>*`              (one round of check_files_for_refreshes)
 -/
 namespace Aiocoap
 open Aiocoap.FileServer
@@ -94,6 +102,52 @@ def showResult (req : Request) (r : Result) : String :=
     ([showOutcome r.resp.outcome, showBlock2 r.resp.block2, bytesToHex r.resp.payload,
       s!"nba={if needsBlockwiseAssembly req then 1 else 0}", "|"] ++ r.ops.map showOp)
 
+def parsePathSet (s : String) : Option (List PPath) :=
+  if s = "~" then some [] else (s.splitOn "|").mapM parsePPath
+
+/-- one event token; `last` is the content of the previous request event, which a content field
+`=` stands for (the file did not change between two block requests: the line stays short) -/
+def parseEvent (s : String) (last : Bytes) : Option (Event × Bytes) :=
+  match s.splitOn ";" with
+  | ["R", meth, comps, rf, b2, st, wf, tmp, children, content] =>
+    match parseMethod meth, parseStrList comps, parseBits rf 3, parseBlock2 b2, parseStat st,
+        parseBits wf 3, hexToBytes tmp, parseChildren children,
+        (if content = "=" then some last else hexToBytes content) with
+    | some meth, some comps, some [inm, im, ime], some b2, some st, some [em, hit, pdir], some tmp,
+        some children, some content =>
+      some (.request { method := meth, path := comps, ifNoneMatch := inm, ifMatch := im,
+                       ifMatchEmpty := ime, block2 := b2 }
+                     { stat := st, etagMatches := em, ifMatchHit := hit, content, children,
+                       obsPending := false, parentIsDir := pdir, tmpName := tmp }, content)
+    | _, _, _, _, _, _, _, _, _ => none
+  | ["O", comps] => (parseStrList comps).map fun c => (.observe c, last)
+  | ["K", gone] => (parsePathSet gone).map fun g => (.tick g, last)
+  | _ => none
+
+def parseEvents : List String → Bytes → Option (List Event)
+  | [], _ => some []
+  | s :: rest, last =>
+    match parseEvent s last with
+    | some (ev, last') => (parseEvents rest last').map (ev :: ·)
+    | none => none
+
+def requestOf : Event → Option Request
+  | .request req _ => some req
+  | _ => none
+
+def showStep (ev : Event) (out : StepOut) : String :=
+  match ev, out.resp with
+  | .request req _, some resp => showResult req { resp := resp, ops := out.ops }
+  | .request _ _, none => "?"
+  | .observe _, _ => if out.refused then "4.00" else "obs"
+  | .tick _, _ => " ".intercalate (["tick", "|"] ++ out.ops.map showOp)
+
+def showCli : CliResult → String
+  | .ok o =>
+    s!"ok write={if o.config.write then 1 else 0} etag={o.etagLength} root={showPPath o.config.root}"
+  | .usage => "usage"
+  | .outOfModel => "out-of-model"
+
 end FileServer
 
 def handleC19 (args : List String) : String :=
@@ -124,6 +178,16 @@ def handleC19 (args : List String) : String :=
                          children, obsPending := obs, parentIsDir := pdir, tmpName := tmp }
       showResult req (handle cfg req w)
     | _, _, _, _, _, _, _, _, _, _, _ => "bad-op"
+  | "A" :: toks =>
+    match toks.mapM hexToBytes with
+    | some toks => showCli (parseArgv {} toks)
+    | none => "bad-op"
+  | "H" :: cf :: root :: evs =>
+    match parseBits cf 2, parsePPath root, parseEvents evs [] with
+    | some [write, etags], some root, some evs =>
+      let outs := ((Server.fresh { root, write, etags }).run evs).2
+      " ;; ".intercalate ((evs.zip outs).map fun (ev, out) => showStep ev out)
+    | _, _, _ => "bad-op"
   | _ => "bad-op"
 
 end Aiocoap
